@@ -252,9 +252,12 @@ pub struct TotalCase {
     /// one Ok(0) at this offset, then the stream goes on
     #[serde(default)]
     pub nonsticky_eof_at: Option<usize>,
-    /// the reader reports its end once and blocks for ever when polled again
+    /// the reader reports its end (or a hard error) once and blocks for ever when polled again
     #[serde(default)]
     pub blocks_after_eof: bool,
+    /// the reader has more bytes than the input cap allows and blocks for ever once they are all delivered
+    #[serde(default)]
+    pub peer_waits: bool,
     /// 0: T::deserialize, 1: closure ignores the deserializer, 2: IgnoredAny, 3: stops after the first element
     pub closure_mode: u8,
     /// what kind of case this is (informational)
@@ -321,7 +324,25 @@ fn run_owned<T: DeserializeOwned + Debug>(c: &TotalCase, st: &mut Stats) -> Vec<
         }),
     );
     // reader entry points
-    let mk = || SimReader::new(bytes, script(c));
+    // The waiting peer (it has sent more than the cap allows and blocks once that is delivered) only applies
+    // where the cap error is what the call comes to: the library then knows its answer and has no business
+    // asking for more. Any other error may legitimately be followed by the diagnostic read-ahead.
+    let peer_waits = c.peer_waits && {
+        let rd = SimReader::new(bytes, script(c));
+        matches!(
+            guard(|| serde_saphyr::from_reader_with_options::<_, T>(rd, opts()).map(|_| ())),
+            Ok(Err(e)) if lab::err_info(&e).io.as_deref() == Some("FileTooLarge")
+        )
+    };
+    let mk = || {
+        SimReader::new(
+            bytes,
+            ReaderScript {
+                peer_waits,
+                ..script(c)
+            },
+        )
+    };
     let mut readers: Vec<SimReader> = Vec::new();
     {
         let rd = mk();
@@ -343,7 +364,18 @@ fn run_owned<T: DeserializeOwned + Debug>(c: &TotalCase, st: &mut Stats) -> Vec<
         );
     }
     for plain in [false, true] {
-        let mut rd = mk();
+        // (`read` has no input cap: there the waiting peer would legitimately be asked for more)
+        let mut rd = if plain {
+            SimReader::new(
+                bytes,
+                ReaderScript {
+                    peer_waits: false,
+                    ..script(c)
+                },
+            )
+        } else {
+            mk()
+        };
         readers.push(rd.clone());
         let max_items = bytes.len() + 8; // an iterator cannot yield more items than there are bytes
         let mut items = 0usize;
@@ -968,6 +1000,7 @@ pub fn gen_case(tier: Tier, seed: u64, idx: u64) -> Case {
             faults: vec![],
             nonsticky_eof_at: None,
             blocks_after_eof: false,
+            peer_waits: false,
             closure_mode: 0,
             origin: "deep kind=11 depth=1999 wide-struct".to_string(),
         });
@@ -989,6 +1022,7 @@ pub fn gen_case(tier: Tier, seed: u64, idx: u64) -> Case {
             faults: vec![],
             nonsticky_eof_at: None,
             blocks_after_eof: false,
+            peer_waits: false,
             closure_mode: 0,
             origin: format!("deep kind={kind} depth={depth}"),
         });
@@ -1004,6 +1038,7 @@ pub fn gen_case(tier: Tier, seed: u64, idx: u64) -> Case {
             faults: vec![],
             nonsticky_eof_at: None,
             blocks_after_eof: false,
+            peer_waits: false,
             closure_mode: 0,
             origin,
         });
@@ -1303,6 +1338,10 @@ pub fn gen_case(tier: Tier, seed: u64, idx: u64) -> Case {
         // clause to the default budget): keep unbudgeted inputs small
         opts.budget = Some(serde_saphyr::Budget::default());
     }
+    // a peer that has sent more than the cap allows and then waits: the cap error is known without another read
+    #[allow(deprecated)]
+    let cap = opts.budget.as_ref().and_then(|b| b.max_reader_input_bytes);
+    let peer_waits = faults.is_empty() && nonsticky.is_none() && matches!(cap, Some(c) if c.saturating_add(8) < bytes.len()) && rng.chance(1, 2);
     Case::C01(TotalCase {
         bytes: Doc(bytes),
         target,
@@ -1310,7 +1349,12 @@ pub fn gen_case(tier: Tier, seed: u64, idx: u64) -> Case {
         chunking,
         faults: faults.clone(),
         nonsticky_eof_at: nonsticky,
-        blocks_after_eof: faults.is_empty() && nonsticky.is_none() && rng.chance(1, 3),
+        // (with faults: the reader also blocks when it is polled after a hard error; a fault that lets the stream
+        // resume is a retryable condition by construction and is left out)
+        blocks_after_eof: nonsticky.is_none()
+            && faults.iter().all(|f| f.kind != ErrKind::Interrupted && f.after == After::Sticky)
+            && rng.chance(1, 3),
+        peer_waits,
         closure_mode: rng.below(4) as u8,
         origin: origin.join("+"),
     })
@@ -1333,6 +1377,11 @@ pub fn shrink(c: &TotalCase) -> Vec<Case> {
     if c.blocks_after_eof {
         let mut n = c.clone();
         n.blocks_after_eof = false;
+        out.push(Case::C01(n));
+    }
+    if c.peer_waits {
+        let mut n = c.clone();
+        n.peer_waits = false;
         out.push(Case::C01(n));
     }
     if c.chunking != Chunking::Whole {
